@@ -56,6 +56,17 @@ fn asinh(z: Complex<f64>) -> Complex<f64> {
     }
 }
 
+/// asin z = -i asinh(iz): the logarithm form ln(sqrt(1 - z^2) + iz) rounds a small z away against the 1
+/// and, for large |z|, cancels in half of the plane (asin((250+40i)^3) was off by 2e-3 relative)
+fn asin(z: Complex<f64>) -> Complex<f64> {
+    if (0.5..=2.0).contains(&z.norm()) {
+        z.asin()
+    } else {
+        let w = asinh(Complex::new(-z.im, z.re));
+        Complex::new(w.im, -w.re)
+    }
+}
+
 /// atanh z = (ln(1 + z) - ln(1 - z)) / 2, with the logarithms taken accurately for small |z|
 fn atanh(z: Complex<f64>) -> Complex<f64> {
     if z.norm() < 0.5 {
@@ -107,17 +118,16 @@ pub fn eval(expr: Node) -> Result<Complex<f64>, Box<dyn error::Error>> {
         Sinh(sub_expr) => Ok(eval(*sub_expr)?.sinh()),
         Cosh(sub_expr) => Ok(eval(*sub_expr)?.cosh()),
         Tanh(sub_expr) => Ok(tanh(eval(*sub_expr)?)),
-        Asin(sub_expr) => {
-            // asin z = -i asinh(iz)
+        Asin(sub_expr) => Ok(asin(eval(*sub_expr)?)),
+        Acos(sub_expr) => {
+            // acos z = pi/2 - asin z; the logarithm form ln(z + i sqrt(1 - z^2)) cancels for large |z|
             let z = eval(*sub_expr)?;
-            if z.norm() < 0.5 {
-                let w = asinh(Complex::new(-z.im, z.re));
-                Ok(Complex::new(w.im, -w.re))
+            if z.norm() > 2.0 {
+                Ok(Complex::new(std::f64::consts::FRAC_PI_2, 0.0) - asin(z))
             } else {
-                Ok(z.asin())
+                Ok(z.acos())
             }
         }
-        Acos(sub_expr) => Ok(eval(*sub_expr)?.acos()),
         Atan(sub_expr) => {
             // atan z = -i atanh(iz)
             let z = eval(*sub_expr)?;
